@@ -299,6 +299,11 @@ def gen(seed, idx, tier, ctx):
                   'obuf': rng.choice(BUF_SIZES),
                   'rplan': draw_read_plan(rng, data, inside, False),
                   'wplan': draw_write_plan(rng, False, dst == 'file')}
+            if src == 'file' and dst == 'file' and rng.random() < 0.25:
+                # format a file in place: -o names the input file itself,
+                # possibly under another spelling of its path
+                it['inplace'] = rng.choice([IN_PATH, '/sim/./in.sql',
+                                            '/sim/sub/../in.sql'])
             if faulty:
                 f = rng.random()
                 if f < 0.3:
@@ -472,12 +477,18 @@ def run_cli_item(item, text, ref, stat, viols, ii, want_bytes=False):
         wplan['fail_at'] = int(wplan.pop('fail_frac') * n)
         if n == 0:
             wplan.pop('fail_at')
+    out_path = OUT_PATH
+    if item.get('inplace') and item['in'] == 'file' and \
+            not item.get('open_r_err'):
+        out_path = IN_PATH
+        stat('cli_inplace_items')
     if item['out'] == 'file':
-        argv += ['-o', OUT_PATH]
+        argv += ['-o', item.get('inplace') if out_path == IN_PATH
+                 else OUT_PATH]
         if item.get('open_w_err'):
-            fs.write_err[OUT_PATH] = item['open_w_err']
-        fs.wplan[OUT_PATH] = wplan
-        fs.buffer_size[OUT_PATH] = item.get('obuf') or 8192
+            fs.write_err[out_path] = item['open_w_err']
+        fs.wplan[out_path] = wplan
+        fs.buffer_size[out_path] = item.get('obuf') or 8192
         stdout, so_sink = iofake.make_stdout({}, chan, item.get(
             'stdout_enc') or 'utf-8')
         out_enc = enc
@@ -519,7 +530,7 @@ def run_cli_item(item, text, ref, stat, viols, ii, want_bytes=False):
     except Exception:                            # noqa
         pass
     gc.collect()
-    sink = fs.sinks.get(OUT_PATH) if item['out'] == 'file' else so_sink
+    sink = fs.sinks.get(out_path) if item['out'] == 'file' else so_sink
     out_bytes = bytes(sink.data) if sink is not None else b''
     stray = bytes(so_sink.data) if item['out'] == 'file' else b''
     errs = dict(chan.fired)
@@ -892,6 +903,7 @@ PROBES = ['probe_multibyte_char_split_across_reads', 'probe_short_read',
           'form_tstream', 'large_texts',
           'form_cli_file_stdout', 'form_cli_stdin_stdout',
           'form_cli_file_file', 'form_cli_stdin_file', 'cli_invalid_items',
+          'cli_inplace_items',
           'faulted_item_failed_visibly']
 
 COMPONENTS = {
